@@ -55,7 +55,8 @@ def apply_edit(db, e):
         elif op == 'table_schema':
             t.schema = dec(e['v'])
         elif op == 'table_alias':
-            t.alias = dec(e['v']) or None
+            # "no alias" is written None or '' (the constructor treats both alike): alternately
+            t.alias = dec(e['v']) or (None if len(db.tables) % 2 else '')
         elif op == 'table_note':
             t.note = Note(dec(e['v']))
     elif op.startswith('col_'):
